@@ -412,6 +412,19 @@ func (s *Sim) AtSite(site string, nth int, name string, fn func()) {
 	s.siteTriggers[site] = append(s.siteTriggers[site], siteTrigger{nth: nth, name: name, fn: fn})
 }
 
+// AtNextSite is AtSite for the next park at the site from now on.
+func (s *Sim) AtNextSite(site, name string, fn func()) {
+	s.mu.Lock()
+	n := s.siteParks[site] + 1
+	// parks at sites without a trigger are not counted yet: count from now
+	if _, ok := s.siteTriggers[site]; !ok {
+		s.siteParks[site] = 0
+		n = 1
+	}
+	s.siteTriggers[site] = append(s.siteTriggers[site], siteTrigger{nth: n, name: name, fn: fn})
+	s.mu.Unlock()
+}
+
 // Advance lets d of simulated time pass while every task stays where it is
 // (models CPU time). Call from an event.
 func (s *Sim) Advance(d time.Duration) {
